@@ -1,13 +1,13 @@
 ------------------------------ MODULE MC_auth ------------------------------
 EXTENDS Auth
-CounterTuple(r, c) == <<r, c>>
+CounterTuple(r, c, v) == <<r, c, v>>
 AllAccts == {"r1", "r2", "tss", "out"}
 SomeAccts == {"r1", "tss", "out"}
 AllChains == {"one", "two", "tss"}
 TwoChains == {"one", "tss"}
-SomeMethods == {"setSequence", "bindToken"}
+SomeMethods == {"setSequence"}
 AllMethods == {"setSequence", "setAckStatus", "setChainName", "sendPacketFeeToRelayer", "packet.onRecvPacket", "OnAcknowledgePacket",
                "bindToken", "enableLimit", "disableLimit", "endpoint.onRecvPacket", "onAcknowledgementPacket"}
-SomePaths == {"eoa", "execute"}
+SomePaths == {"eoa"}
 AllPaths == {"eoa", "contract", "execute", "execute-contract"}
 =============================================================================
